@@ -1,12 +1,12 @@
 SPECIFICATION Spec
 CONSTANTS
-  Times = {0, 1}
-  Prices = {1, 2}
-  Qtys = {1, 2, 3}
+  Times = {0}
+  Prices = {2}
+  Qtys = {1, 2}
   BalInit = {600}
   FeePcts = {0, 50}
   Lats = {2}
-  Sinces = {1, 2}
+  Sinces = {0, 2}
   OpenCids = {"o1"}
   MaxTrades = 2
   ClockSlack = TRUE
